@@ -1,7 +1,7 @@
 # -*- coding: utf-8 -*-
 """M4: interpreter-level step / stack-depth monitor built on sys.monitoring (Python 3.12).
 
-Counts LINE events and tracks call depth for code objects that live under <repo>/cryptoparser only
+Counts LINE events and backward JUMP events (loop iterations that stay on one line) and tracks call depth for code objects that live under <repo>/cryptoparser only
 (everything else returns DISABLE, so harness and third-party frames never enter a figure). A per-call
 step budget is enforced from inside the LINE callback: exceeding it raises StepBudgetExceeded (a
 BaseException, so no `except Exception` of the library can swallow it) - a non-terminating or
@@ -47,6 +47,18 @@ class StepMonitor(object):  # pylint: disable=too-many-instance-attributes
             raise StepBudgetExceeded(self.steps)
         return None
 
+    def _on_jump(self, code, offset, destination):
+        # a loop written on one line (comprehension, generator expression, `for ...: stmt`, `while ...: stmt`) never changes
+        # line, so LINE events do not see its iterations; the backward jump that closes each iteration does
+        if not self._lib(code):
+            return sys.monitoring.DISABLE
+        if destination < offset:
+            self.steps += 1
+            if self.budget is not None and self.steps > self.budget and not self.tripped:
+                self.tripped = True
+                raise StepBudgetExceeded(self.steps)
+        return None
+
     def _on_start(self, code, offset):  # pylint: disable=unused-argument
         if not self._lib(code):
             return sys.monitoring.DISABLE
@@ -70,6 +82,7 @@ class StepMonitor(object):  # pylint: disable=too-many-instance-attributes
             mon.use_tool_id(self.TOOL_ID, 'vmon-stepmon')
         events = mon.events
         mon.register_callback(self.TOOL_ID, events.LINE, self._on_line)
+        mon.register_callback(self.TOOL_ID, events.JUMP, self._on_jump)
         mon.register_callback(self.TOOL_ID, events.PY_START, self._on_start)
         mon.register_callback(self.TOOL_ID, events.PY_RESUME, self._on_start)
         mon.register_callback(self.TOOL_ID, events.PY_RETURN, self._on_exit)
@@ -94,7 +107,7 @@ class StepMonitor(object):  # pylint: disable=too-many-instance-attributes
         self.max_depth = 0
         self.budget = budget
         self.tripped = False
-        mon.set_events(self.TOOL_ID, events.LINE | events.PY_START | events.PY_RESUME | events.PY_RETURN |
+        mon.set_events(self.TOOL_ID, events.LINE | events.JUMP | events.PY_START | events.PY_RESUME | events.PY_RETURN |
                        events.PY_YIELD | events.PY_UNWIND)
         try:
             try:
